@@ -152,12 +152,12 @@ def run(tier: str) -> int:
         meta.append((label, shapes))
     import pypika_tortoise as P
 
-    tables = {"t": P.Table("t"), "u": P.Table("u"), "v": P.Table("v")}
+    tables = {"t": P.Table("t"), "u": P.Table("u"), "v": P.Table("v"), "e1": P.Table("emp", alias="e1"), "e2": P.Table("emp", alias="e2")}
     for t in trees:
         term = build_tree(t["tree"], tables)
         try:
-            fields = sorted({(f.table._table_name if f.table is not None else "", f.name) for f in term.fields_()})
-            tabs = sorted({x._table_name for x in term.tables_})
+            fields = sorted({(f.table.get_table_name() if f.table is not None else "", f.name) for f in term.fields_()})
+            tabs = sorted({x.get_table_name() for x in term.tables_})
         except Exception as ex:  # noqa
             raise core.MachineryError(f"fields_/tables_ raised on {t['tree']}: {ex!r}")
         events.append({"tid": len(events), "kind": "tree", "tree": t["tree"], "fields": [list(f) for f in fields], "tables": tabs})
